@@ -217,6 +217,12 @@ def bits(pred):
     return v
 
 
+def bits_cached(name, pred):
+    if name not in _sets:
+        _sets[name] = bits(pred)
+    return _sets[name]
+
+
 def ascii_bits(pred):
     v = 0
     for c in range(128):
@@ -365,6 +371,15 @@ def charset(f, facts=None):
                 if cs is not None and len(cs) == 1:
                     v = 1 << cs[0]
                     return v if name == "binop:Eq" else universe() & ~v
+        if name in ("std::iter::Iterator::eq", "std::iter::Iterator::ne") and len(args) == 2:
+            # c.to_lowercase().eq([c])  /  .ne([c]) : "lower-casing does not / does change c"
+            a, b = args
+            if a[0] == "call" and a[1].endswith("<impl char>::to_lowercase") and a[2] == (CPARAM,) and b[0] == "agg" and b[1][0] == "array" and b[2] == (CPARAM,):
+                fixed = universe() & ~set_of("lower_changes")
+                return fixed if name.endswith("::eq") else universe() & ~fixed
+            if a[0] == "call" and a[1].endswith("<impl char>::to_uppercase") and a[2] == (CPARAM,) and b[0] == "agg" and b[1][0] == "array" and b[2] == (CPARAM,):
+                fixed = bits_cached("upper_fixed", lambda c: chr(c).upper() == chr(c))
+                return fixed if name.endswith("::eq") else universe() & ~fixed
         if name == "atom":
             at = args[0]
             # match on the char itself:  ("val", cparam, outcome)
